@@ -1,0 +1,141 @@
+//go:build verif
+
+/*
+SPDX-License-Identifier: Apache-2.0
+*/
+
+package bbs12381g2pub
+
+import (
+	"fmt"
+
+	ml "github.com/IBM/mathlib"
+)
+
+// This file is compiled only with the build tag "verif". It gives the verification harness read access to the
+// verifier's Fiat-Shamir input and to the prover's state, so that structurally crafted proofs can be built with
+// the package's own encoders. It changes nothing of the package's behaviour.
+
+// VerifChallengeInput returns the exact byte string VerifyProof hashes into the challenge for these arguments
+// (the steps of VerifyProof up to frFromOKM, through the same functions).
+func VerifChallengeInput(messagesBytes [][]byte, proof, nonce, pubKeyBytes []byte) ([]byte, error) {
+	payload, err := parsePoKPayload(proof)
+	if err != nil {
+		return nil, fmt.Errorf("parse signature proof: %w", err)
+	}
+
+	signatureProof, err := ParseSignatureProof(proof[payload.lenInBytes():])
+	if err != nil {
+		return nil, fmt.Errorf("parse signature proof: %w", err)
+	}
+
+	messages := messagesToFr(messagesBytes)
+
+	pubKey, err := UnmarshalPublicKey(pubKeyBytes)
+	if err != nil {
+		return nil, fmt.Errorf("parse public key: %w", err)
+	}
+
+	publicKeyWithGenerators, err := pubKey.ToPublicKeyWithGenerators(payload.messagesCount)
+	if err != nil {
+		return nil, fmt.Errorf("build generators from public key: %w", err)
+	}
+
+	if len(payload.revealed) > len(messages) {
+		return nil, fmt.Errorf("payload revealed bigger from messages")
+	}
+
+	revealedMessages := make(map[int]*SignatureMessage)
+	for i := range payload.revealed {
+		revealedMessages[payload.revealed[i]] = messages[i]
+	}
+
+	challengeBytes := signatureProof.GetBytesForChallenge(revealedMessages, publicKeyWithGenerators)
+	challengeBytes = append(challengeBytes, ParseProofNonce(nonce).ToBytes()...)
+
+	return challengeBytes, nil
+}
+
+// VerifChallenge hashes a challenge input to the challenge scalar.
+func VerifChallenge(input []byte) *ml.Zr { return frFromOKM(input) }
+
+// VerifGenerators returns h0 and h[0..n) of the key for n messages.
+func VerifGenerators(pubKeyBytes []byte, n int) (*ml.G1, []*ml.G1, error) {
+	pubKey, err := UnmarshalPublicKey(pubKeyBytes)
+	if err != nil {
+		return nil, nil, err
+	}
+
+	pkg, err := pubKey.ToPublicKeyWithGenerators(n)
+	if err != nil {
+		return nil, nil, err
+	}
+
+	return pkg.h0, pkg.h, nil
+}
+
+// VerifSum is sumOfG1Products.
+func VerifSum(points []*ml.G1, scalars []*ml.Zr) *ml.G1 { return sumOfG1Products(points, scalars) }
+
+// VerifRandFr is createRandSignatureFr.
+func VerifRandFr() *ml.Zr { return createRandSignatureFr() }
+
+// VerifG1 returns the generator of G1 used by the scheme.
+func VerifG1() *ml.G1 { return curve.GenG1.Copy() }
+
+// VerifPoK is the honest prover's state after NewPoKOfSignature.
+type VerifPoK struct{ pos *PoKOfSignature }
+
+// VerifNewPoK runs the first half of DeriveProof.
+func VerifNewPoK(messages [][]byte, sigBytes, pubKeyBytes []byte, revealedIndexes []int) (*VerifPoK, error) {
+	pubKey, err := UnmarshalPublicKey(pubKeyBytes)
+	if err != nil {
+		return nil, err
+	}
+
+	pkg, err := pubKey.ToPublicKeyWithGenerators(len(messages))
+	if err != nil {
+		return nil, err
+	}
+
+	signature, err := ParseSignature(sigBytes)
+	if err != nil {
+		return nil, err
+	}
+
+	pos, err := NewPoKOfSignature(signature, messagesToFr(messages), revealedIndexes, pkg)
+	if err != nil {
+		return nil, err
+	}
+
+	return &VerifPoK{pos: pos}, nil
+}
+
+// Points returns A', Abar, d.
+func (v *VerifPoK) Points() (*ml.G1, *ml.G1, *ml.G1) { return v.pos.aPrime, v.pos.aBar, v.pos.d }
+
+// Commitments returns the commitments of the two sub-proofs.
+func (v *VerifPoK) Commitments() (*ml.G1, *ml.G1) {
+	return v.pos.pokVC1.commitment, v.pos.pokVC2.commitment
+}
+
+// Proofs answers a challenge honestly.
+func (v *VerifPoK) Proofs(challenge *ml.Zr) (*ProofG1, *ProofG1) {
+	return v.pos.pokVC1.GenerateProof(challenge, v.pos.secrets1), v.pos.pokVC2.GenerateProof(challenge, v.pos.secrets2)
+}
+
+// Responses returns the responses of a sub-proof.
+func (pg1 *ProofG1) VerifResponses() []*ml.Zr { return pg1.responses }
+
+// VerifAssemble encodes payload (count, revealed indexes - also indexes beyond count) and proof with the
+// package's encoders.
+func VerifAssemble(messagesCount int, revealed []int, aPrime, aBar, d *ml.G1, vc1, vc2 *ProofG1) ([]byte, error) {
+	payloadBytes, err := newPoKPayload(messagesCount, revealed).toBytes()
+	if err != nil {
+		return nil, err
+	}
+
+	p := &PoKOfSignatureProof{aPrime: aPrime, aBar: aBar, d: d, proofVC1: vc1, proofVC2: vc2}
+
+	return append(payloadBytes, p.ToBytes()...), nil
+}
